@@ -29,11 +29,11 @@ CONFIGS = {
                   ("wd2", "waker", "WB_same", "S_wd2", "M_p1"),
                   ("wrec", "waker", "WB_same", "S_wd2", "M_recycle"),
                   ("wrec2", "waker", "WB_two", "S_wr2", "M_recycle2"),
+                  ("wd_bms", "waker", "WB_bms", "S_wd3", "M_p2"),
                   ("hfin", "waker", "WB_three", "S_h1", "M_p2", "HP_findrop"),
                   ("hself", "waker", "WB_three", "S_h1", "M_h2", "HP_selfdrop"),
                   ("hnest", "waker", "WB_three", "S_h3", "M_p1", "HP_nested")],
-        "thorough": [("w_three", "waker", "WB_three", "S_w3", "M_p2"),
-                     ("wd_bms", "waker", "WB_bms", "S_wd3", "M_p2")],
+        "thorough": [("w_three", "waker", "WB_three", "S_w3", "M_p2")],
     },
     "C13": {
         "quick": [("c1", "channel", "NoWakers", "S_c1", "M_c1"),
@@ -231,6 +231,9 @@ def rand_scripts(rng, kind):
         if rng.random() < 0.15:
             # the Fwd target drops the guard when it is handed its first message (main never drops it itself)
             return {"kind": "channel", "wakers": [], "threads": threads, "main": [m for m in main if m[0] != "dropguard"], "gdf": True}
+        if rng.random() < 0.3:
+            # the guard goes by unwinding: its owner panics (caught further up)
+            return {"kind": "channel", "wakers": [], "threads": threads, "main": main, "gunwind": True}
         return {"kind": "channel", "wakers": [], "threads": threads, "main": main, "cecho": rng.random() < 0.2}
     if rng.random() < 0.12:
         # the worker sends a burst while the main thread keeps collecting: every message must arrive
